@@ -148,11 +148,12 @@ pub fn plant(base: &LedgerCase, it: &Intent) -> Option<RejectCase> {
     // chronological order of this security's rows (file index)
     let mut idx: Vec<usize> = base.rows.iter().enumerate().filter(|(_, r)| r.sec == sec).map(|(i, _)| i).collect();
     idx.sort_by_key(|&i| (base.rows[i].sd, i));
-    let k = (it.date_off as usize * idx.len()) >> 16; // insert after chronological row k
-    let anchor_file_ix = idx[k];
+    // insert after chronological row k-1; k = 0 puts the planted row before every row of the security (same day as its first row, earlier in the file)
+    let k = (it.date_off as usize * (idx.len() + 1)) >> 16;
+    let anchor_file_ix = if k == 0 { idx[0] } else { idx[k - 1] };
     let anchor = base.rows[anchor_file_ix].clone();
     // state after the chronological prefix
-    let prefix: Vec<HRow> = idx[..=k].iter().map(|&i| base.rows[i].clone()).collect();
+    let prefix: Vec<HRow> = idx[..k].iter().map(|&i| base.rows[i].clone()).collect();
     let m = model_for(&prefix, base.opening_for(&sec));
     if m.err.is_some() { return None; }
     let mut state: BTreeMap<String, (Rat, Option<Rat>)> = BTreeMap::new();
@@ -229,7 +230,7 @@ pub fn plant(base: &LedgerCase, it: &Intent) -> Option<RejectCase> {
         }
     }
     let mut rows = base.rows.clone();
-    let planted_ix = anchor_file_ix + 1;
+    let planted_ix = if k == 0 { anchor_file_ix } else { anchor_file_ix + 1 };
     rows.insert(planted_ix, row);
     if rows[planted_ix].sfl == "?" {
         rows[planted_ix].sfl.clear();
@@ -336,6 +337,16 @@ pub fn check_reject(c: &RejectCase, obs: &mut Obs) -> Verdict {
     let mut rdr = csv::ReaderBuilder::new().has_headers(false).flexible(true).from_reader(w.out.as_bytes());
     for rec in rdr.records().flatten() { for c in rec.iter() { cells.push(c.to_string()); } }
     if !(cells.iter().any(|c| c.contains(msg.as_str())) || w.err.contains(first)) { return known_or_fail("F-04a", format!("CSV output mode never shows the rejection message for {sec} ({first})\n{csv}")); }
+    // the real --csv-output-dir mode: files in a directory plus the error stream
+    match crate::observe::run_csv_dir(&files, &case.run_opts()) {
+        Ok((dir_files, err)) => {
+            let mut found = err.contains(first);
+            for (_, text) in &dir_files { let mut rdr = csv::ReaderBuilder::new().has_headers(false).flexible(true).from_reader(text.as_bytes()); for rec in rdr.records().flatten() { if rec.iter().any(|c| c.contains(msg.as_str())) { found = true; } } }
+            if !found { return known_or_fail("F-04a", format!("--csv-output-dir mode: the rejection message for {sec} ({first}) is in none of the files written ({:?}) nor in the error stream\n{csv}", dir_files.iter().map(|f| f.0.clone()).collect::<Vec<_>>())); }
+        }
+        Err(RunErr::Panic(p)) => return classify_panic(&p, csv),
+        Err(RunErr::Run(e)) | Err(RunErr::BadInit(e)) => return Verdict::Fail(format!("--csv-output-dir run failed: {e}\n{csv}")),
+    }
     obs.class(format!("cause:{}", c.cause));
     obs.class(format!("model-cause:{}", match me.cause { Cause::OverSaleSeenFromWindow { .. } => "oversale-seen-from-earlier-loss-sale".to_string(), ref x => format!("{:?}", x) }));
     if me.src > 0 { obs.nt("offending-row-not-first"); }
